@@ -297,11 +297,15 @@ fn exec_step(gi: usize, t: usize, s: &Value, tc: &mut ThreadCtx) {
                     Some((trace, uid, hd)) => {
                         h.uid = uid;
                         let mut vals = vec![];
-                        trace.with_spans(|_meta, fields| {
-                            // fields look like `site=3 val=5000`
-                            let v = fields.split_whitespace().find_map(|kv| kv.strip_prefix("val=")).and_then(|x| x.parse::<u64>().ok()).unwrap_or(0);
-                            vals.push(v);
-                            true
+                        // a captured trace is walked through the collector it was captured under, whatever the
+                        // walking thread's default is at that moment
+                        with_under(&under, || {
+                            trace.with_spans(|_meta, fields| {
+                                // fields look like `site=3 val=5000`
+                                let v = fields.split_whitespace().find_map(|kv| kv.strip_prefix("val=")).and_then(|x| x.parse::<u64>().ok()).unwrap_or(0);
+                                vals.push(v);
+                                true
+                            });
                         });
                         h.trace = vals;
                         WORLD.lock().unwrap().as_mut().unwrap().traces[tr] = Some((trace, uid, hd));
@@ -528,7 +532,13 @@ impl Engine for RegistryEngine {
                             let own: Vec<u64> = (0..4u64).filter(|x| !sync || x % nthreads == t).collect();
                             match rng.below(5) {
                                 0 => json!({"t": t, "op": "trace_capture", "tr": *rng.pick(&own)}),
-                                1 => json!({"t": t, "op": "trace_walk", "tr": *rng.pick(&own)}),
+                                1 => {
+                                    if rng.chance(1, 2) {
+                                        json!({"t": t, "op": "trace_walk", "tr": *rng.pick(&own), "under": *rng.pick(&["B", "none"])})
+                                    } else {
+                                        json!({"t": t, "op": "trace_walk", "tr": *rng.pick(&own)})
+                                    }
+                                }
                                 2 => json!({"t": t, "op": "trace_drop", "tr": *rng.pick(&own)}),
                                 _ => json!({"t": t, "op": "event", "site": rng.below(20), "parent": *rng.pick(&[-1i64, -1, -2, slot as i64])}),
                             }
